@@ -88,3 +88,31 @@ plan("C09", "exploration",
      "wrapper counts evaluations per batch index (exactly once). One worker enumerates util.Scatter(n) for every n in [1,600] x GOMAXPROCS in [1,64] (complete table) and checks the "
      "(offset, entries) pairs partition [0,n).",
      q, t)
+
+def c06_layers(rand_runs, budget, matrix_workers=4, matrix_runs=400):
+    ls = [dict(runs=matrix_runs, budget_s=budget, params="mode=matrix,mw=%d,mW=%d" % (k, matrix_workers)) for k in range(matrix_workers)]
+    ls += [dict(runs=rand_runs, budget_s=budget, params="")] * (16 - matrix_workers)
+    return ls
+q, t = tiers(150, 60, 8000, 1200)
+q["layers"] = c06_layers(150, 60)
+t["layers"] = c06_layers(8000, 1200)
+q["require_probes"] = ["matrix_cases", "probe_requests_meeting_a_fault", "fault_store-closed-under-load"]
+t["require_probes"] = q["require_probes"]
+q["require_complete"] = t["require_complete"] = [("matrix_cases", "matrix_total")]
+plan("C06", "fault_enumeration",
+     "(a) single-fault matrix, enumerated completely in both tiers: 20 fault sites (account lookup, permission check, IsUnlocked error, unlock error, no passphrase opens it, "
+     "really sealed account, rules UNKNOWN/FAILED/DENIED, short and empty result list, store read error, store write error, wrong-length record, undecodable record, store closed, "
+     "Sign error, 31- and 33-byte domain, 31-byte data root) x request kind {attest, attest-batch, propose, generic, multisign} x batch size {1,2,3,5,17} x position; "
+     "(b) seeded multi-fault sequences: 2-6 concurrent requests with store/rules/Sign faults injected at yield points at a drawn rate, pre-drawn lookup/permission/unlock faults, "
+     "and the store closed under load. distinct = distinct matrix case or distinct faulty schedule; non-trivial = a fault actually fired on a request's path. "
+     "Oracle: signature iff SUCCEEDED at every position (handler level); every position whose path met the fault carries no signature; no panic; ledger and signature validity still hold.",
+     q, t, crash_is_violation=True)
+
+q, t = tiers(200, 60, 10000, 900)
+plan("C05", "exploration",
+     "one case = one (endpoint, domain class, source listed?, admin list size) combination; a seeded run draws an administrator list (empty / one / many, incl. look-alike strings), "
+     "4-15 requests over {generic, multisign, attestation, attestation batch, proposal} with a domain per position from {attester, proposer, voluntary-exit, other spec types, "
+     "near misses of the slashable types, random prefix} x random 28-byte suffix and a source address (absent / listed / unlisted / look-alike); a quarter of the runs make the rules "
+     "answer UNKNOWN/FAILED for some keys. distinct = distinct combination actually exercised; non-trivial = all. Oracle: no signature under attester/proposer via generic endpoints, "
+     "none under any other type via the attestation/proposal endpoints (and the slashing database is unchanged by such a refusal), exit only for a listed source.",
+     q, t)
